@@ -9,6 +9,7 @@
 
 import copy
 import logging
+import operator
 from functools import reduce
 from math import ceil
 import multiprocessing as mp
@@ -55,6 +56,10 @@ def _get_subitems(bounds, item):
     """
     if isinstance(item, slice):
         start, stop, step = item.start, item.stop, item.step
+        # Slice bounds may be NumPy integers (e.g. uint64 spike samples): do the arithmetic below
+        # with Python integers, as NumPy does when slicing an array.
+        start = start if start is None else operator.index(start)
+        stop = stop if stop is None else operator.index(stop)
         start = start or bounds[0]
         stop = stop or bounds[-1]
         if start < 0:
